@@ -341,6 +341,12 @@ func (fv *FuncVC) processBlock(b *ssa.BasicBlock) {
 		reach = fv.edge(preds[0], b)
 	} else {
 		var edges []Term
+		defer func() {
+			if fv.inEdges == nil {
+				fv.inEdges = map[int][]Term{}
+			}
+			fv.inEdges[b.Index] = edges
+		}()
 		for _, p := range preds {
 			edges = append(edges, fv.edge(p, b))
 		}
